@@ -115,7 +115,9 @@ type Action struct {
 	EndDelay   time.Duration
 	Before     []Extra
 	After      []Extra
-	Window     int // >1: hold until Window replies are held on the connection (or WindowWait), then send them in reverse arrival order
+	PadTo      int  // >0: the reply is padded (one TXT record in the additional section) to exactly this many octets
+	NoQuestion bool // the reply is a bare 12-octet header (QDCOUNT=0) with the query's id, QR and - if TC is set - TC
+	Window     int  // >1: hold until Window replies are held on the connection (or WindowWait), then send them in reverse arrival order
 	WindowWait time.Duration
 }
 
@@ -528,7 +530,7 @@ func (sc *SConn) emit(q *Query, act Action) {
 				leg = sc.s.Leg
 			}
 			nonce := NextNonce()
-			frame := sc.frameOf(BuildReply(q.ID, q.Question, nonce, leg, act.TC))
+			frame := sc.frameOf(shapeReply(BuildReply(q.ID, q.Question, nonce, leg, act.TC), &act))
 			cut := 0
 			if act.AbortAfter > 0 && act.AbortAfter < len(frame) {
 				cut = act.AbortAfter
@@ -840,7 +842,7 @@ func (s *Server) NewReply(q *Query, act *Action) (msg []byte, r *Reply) {
 		kind = "answer"
 	}
 	nonce := NextNonce()
-	msg = BuildReply(q.ID, q.Question, nonce, leg, act.TC)
+	msg = shapeReply(BuildReply(q.ID, q.Question, nonce, leg, act.TC), act)
 	r = &Reply{Conn: q.Conn, ID: q.ID, Nonce: nonce, Query: q.Seq, Kind: kind, TC: act.TC, Leg: leg, Len: len(msg)}
 	s.mu.Lock()
 	r.T = Now()
@@ -880,4 +882,29 @@ func (a *Action) cut(frameLen int) int {
 		return frameLen - a.AbortTail
 	}
 	return 0
+}
+
+// shapeReply applies the size / shape wishes of an action to a built reply.
+func shapeReply(msg []byte, act *Action) []byte {
+	if act.NoQuestion {
+		h := append([]byte{}, msg[:12]...)
+		h[4], h[5], h[6], h[7], h[8], h[9], h[10], h[11] = 0, 0, 0, 0, 0, 0, 0, 0
+		return h
+	}
+	if act.PadTo > len(msg)+12 {
+		rem := act.PadTo - len(msg) - 11 // root owner (1) + type, class, ttl, rdlength (10)
+		rd := make([]byte, 0, rem)
+		for rem > 0 {
+			n := min(255, rem-1)
+			rd = append(rd, byte(n))
+			for k := 0; k < n; k++ {
+				rd = append(rd, 'p')
+			}
+			rem -= n + 1
+		}
+		msg = append(msg, 0, 0, 16, 0, 1, 0, 0, 0, 60, byte(len(rd)>>8), byte(len(rd)))
+		msg = append(msg, rd...)
+		msg[11]++ // ARCOUNT
+	}
+	return msg
 }
